@@ -826,7 +826,7 @@ def sample_clauses(A, prop, limit=6):
 def check_property(prop, tier="quick", seed=0):
     t0 = time.time()
     units = units_serving(prop)
-    if not units:
+    if not units and prop not in KANI_HARNESSES:
         print(f"UNDECIDED property={prop}: no unit serves it")
         return 2
     seeds = [seed] if tier == "quick" else [seed, seed + 1, seed + 2]
@@ -835,6 +835,7 @@ def check_property(prop, tier="quick", seed=0):
     with ThreadPoolExecutor(max_workers=int(os.environ.get("VERIF_JOBS", "8"))) as ex:
         futs = {}
         bat_fut = ex.submit(run_battery, prop, tier)
+        kani_fut = ex.submit(run_kani, prop) if prop in KANI_HARNESSES else None
         for u in units:
             for s in seeds:
                 futs[(u, s)] = ex.submit(_safe_verify, u, s, None if tier == "quick" else 20, s == seeds[0])
@@ -845,6 +846,7 @@ def check_property(prop, tier="quick", seed=0):
             else:
                 results.append((k, r))
         bat = bat_fut.result()
+        kani = kani_fut.result() if kani_fut else None
     known, fixed = load_known()
     violations, known_hits = [], []
     functions, obligations, discharged = [], 0, 0
@@ -903,6 +905,36 @@ def check_property(prop, tier="quick", seed=0):
         if len(set(c > 0 for c in counts)) > 1:
             unstable.append(u)
             undecided.append(f"{u}: verdict differs between SMT seeds (unstable proof)")
+    # ---- Kani harnesses on the real crate (loop-free, full-domain => complete proofs)
+    kani_ev = None
+    if kani is not None:
+        if not kani["ran"]:
+            undecided.append("kani: " + kani["note"])
+        else:
+            for h in kani["harnesses"]:
+                obligations += 1
+                if h["ok"]:
+                    discharged += 1
+                elif h["ok"] is None:
+                    undecided.append(f"kani: harness {h['name']} gave no verdict")
+                else:
+                    cl = h["name"].split("::")[-1]
+                    v = {"unit": "kani", "items": [h["name"]], "clause": cl, "message": "Kani harness failed on the real crate",
+                         "where": [{"what": "harness", "file": "kani/src/lib.rs", "line": None, "label": "; ".join(h["detail"][:4]), "text": h["name"]}],
+                         "rendered": "\n".join(h["detail"]) + "\n" + kani_counterexample(h["name"]), "seed": seed}
+                    kn = [k for k in known if k["property"] == prop and k["clause"] == cl]
+                    if kn:
+                        known_hits.append((v, kn[0]))
+                    else:
+                        violations.append(v)
+                functions.append({"unit": "kani", "function": h["name"], "ms": round((h["time"] or 0) * 1000, 1), "rlimit": None,
+                                  "success": bool(h["ok"]), "backend": "kani 0.68 / cbmc 6.11", "cbmc_checks": h["checks"]})
+            kani_ev = {"cmd": kani["cmd"], "harnesses": len(kani["harnesses"]), "cbmc_checks_total": sum(h["checks"] for h in kani["harnesses"]),
+                       "wall_s": kani.get("wall"), "domain": "all i64, all f64 (NaN, +-0, +-inf), bool; loop-free harnesses, unwind(2) only bounds the unreachable Str memcmp (unwinding assertions on)"}
+            samples += [{"item": "liquid_core::model::ScalarCow (PartialEq/PartialOrd) via kani/src/lib.rs", "clause": h["name"], "names": []} for h in kani["harnesses"][:4]]
+            fuc.append({"unit": "kani", "file": "crates/core/src/model/scalar/mod.rs", "item": "impl PartialEq/PartialOrd for ScalarCow (scalar_eq, scalar_cmp), From<i64/f64/bool>, to_integer/to_float/to_bool; scalar/ser.rs serialize_as_i64 via to_scalar",
+                        "lines": None, "sha256_body": None, "serves": [prop], "closures_annotated": 0, "loops_annotated": 0})
+            trusted.append("[kani] kani 0.68 / CBMC 6.11 / CaDiCaL; harnesses reach the real code through the public API of liquid-core (path dependency on /repo/crates/core)")
     # ---- bounded stand-in / witness search: the boundary battery on the real code
     bat_viol = []
     for f in bat["failing"]:
@@ -925,7 +957,8 @@ def check_property(prop, tier="quick", seed=0):
         "property_id": prop, "tier": tier, "seed": seed, "level": "proof",
         "coverage": {
             "obligations": obligations, "discharged": discharged,
-            "checker_cmd": "verus work/gen/<unit>.rs --output-json --time-expanded --error-format=json --multiple-errors 20 (one run per unit + one `ensures false` canary run per unit)",
+            "checker_cmd": ("verus work/gen/<unit>.rs --output-json --time-expanded --error-format=json --multiple-errors 20 (one run per unit + one `ensures false` canary run per unit)" if units else "") + ("; " + kani_ev["cmd"] + " (in kani/)" if kani_ev else ""),
+            "kani": kani_ev,
             "trusted_base": sorted(set(trusted)),
             "obligation_counting_rule": "one per Verus function/lemma query (each carries all its safety obligations: overflow, div-by-zero, unwrap/index preconditions, callee preconditions) plus one per contract line tagged with this property",
             "units": units,
@@ -993,7 +1026,7 @@ def check_property(prop, tier="quick", seed=0):
         for u in undecided:
             print(f"UNDECIDED property={prop}: {u}")
         return 2
-    print(f"OK property={prop} tier={tier} units={','.join(units)} obligations={obligations} discharged={discharged} wall={wall:.1f}s")
+    print(f"OK property={prop} tier={tier} units={','.join(units + (['kani'] if kani is not None else []))} obligations={obligations} discharged={discharged} wall={wall:.1f}s")
     return 0
 
 
@@ -1005,6 +1038,8 @@ def _safe_verify(u, seed, rlimit, do_canary):
 
 
 BOUNDED_STANDS_IN = {
+    "C11": "value_eq / value_cmp on arrays, objects, nil, states and strings (iterator chains over dyn ValueView), construction independence of objects; Date/DateTime are not covered",
+    "C12": "forwarding ValueView impls of Value / ValueCow / &T, serde_json round trips, to_value integer narrowing; derive macros are not covered",
     "C05": "For::render_to / TableRow::render_to glue, Range::evaluate, get_array, evaluate_attr, break/continue handling (state behind RefCell)",
     "C06": "value_eq / value_cmp (veq/vcmp are uninterpreted in the contracts), query_state tables, parse_condition / CaseBlock::parse (pest tokens)",
     "C07": "Variable::evaluate, find/try_find/augmented_get, parse_literal and literal printing",
@@ -1016,6 +1051,8 @@ BOUNDED_STANDS_IN = {
     "C02": "every function reached by the battery inputs of the other properties (no panic)",
 }
 BATTERY_BOUNDS = {
+    "C11": "all ordered pairs of a 42-value pool (nil, booleans, integers incl. 2^53 and the i64 bounds, floats incl. +-0, inf, NaN, strings, empty/blank, arrays and objects nested two deep incl. multi-key objects), each value built twice independently",
+    "C12": "the same 42 values through to_value, ValueCow::{Owned,Borrowed}, as_view and serde_json; integers at the u64/i64 boundary",
     "C05": "arrays of length 0..4 x offset {absent,0,1,2,5} x limit {absent,0,1,2,5} x reversed; ranges incl. empty/descending; tablerow cols {absent,1,2,3}; break/continue at index 1..3 in two nesting levels",
     "C06": "all ordered pairs of a 16-value pool for the ==/!=/</>/<=/>=/case laws; truthiness of each; if/elsif chains of 1..4 arms with all truth assignments; case arms incl. empty bodies; or/and grouping",
     "C07": "arrays of length 0..3, every index in [-len-2, len+1] as literal, variable and nested path; integer literals at the 64-bit boundaries",
@@ -1165,6 +1202,71 @@ def build_replay():
     if p.returncode != 0:
         return None, p.stderr[-2000:]
     return os.path.join(WORK, "replay-target", "debug", "replay"), ""
+
+
+KANI_HARNESSES = {"C11": "c11_", "C12": "c12_"}
+
+
+def run_kani(prop):
+    """Kani harnesses on the real liquid-core crate (kani/): -> dict(ran, harnesses=[{name, ok, checks, failed, time}], note)"""
+    prefix = KANI_HARNESSES[prop]
+    kd = os.path.join(VERIF, "kani")
+    try:
+        import shutil
+        shutil.copyfile(os.path.join(REPO, "Cargo.lock"), os.path.join(kd, "Cargo.lock"))
+    except Exception:
+        pass
+    env = dict(os.environ, CARGO_NET_OFFLINE="true", CARGO_TARGET_DIR=os.path.join(WORK, "kani-target"))
+    cmd = ["cargo", "kani", "-j", str(os.cpu_count() or 8), "--output-format=terse", "--harness", prefix]
+    t0 = time.time()
+    try:
+        p = subprocess.run(cmd, cwd=kd, env=env, capture_output=True, text=True, timeout=3000)
+    except subprocess.TimeoutExpired:
+        return {"ran": False, "note": "cargo kani timed out", "harnesses": [], "cmd": " ".join(cmd)}
+    out = p.stdout + "\n" + p.stderr
+    thread_h, cur, res = {}, None, {}
+    for ln in out.split("\n"):
+        m = re.match(r"Thread (\d+): (Checking harness (\S+?)\.\.\.)?", ln)
+        if m:
+            cur = m.group(1)
+            if m.group(3):
+                thread_h[cur] = m.group(3)
+                res.setdefault(m.group(3), {"name": m.group(3), "ok": None, "checks": 0, "failed": 0, "time": None, "detail": []})
+            continue
+        if cur is None or cur not in thread_h:
+            continue
+        r = res[thread_h[cur]]
+        m = re.search(r"\*\* (\d+) of (\d+) failed", ln)
+        if m:
+            r["failed"], r["checks"] = int(m.group(1)), int(m.group(2))
+        if "VERIFICATION:- SUCCESSFUL" in ln:
+            r["ok"] = True
+        elif "VERIFICATION:- FAILED" in ln:
+            r["ok"] = False
+        m = re.search(r"Verification Time: ([0-9.]+)s", ln)
+        if m:
+            r["time"] = float(m.group(1))
+        if re.match(r"\s*(Failed Checks|File:|\s+- )", ln) or "Failed Checks" in ln:
+            r["detail"].append(ln.strip())
+    hs = list(res.values())
+    if not hs:
+        return {"ran": False, "note": "kani produced no harness results (does kani/ build against the current /repo?): " + out[-600:], "harnesses": [], "cmd": " ".join(cmd)}
+    return {"ran": True, "harnesses": hs, "wall": round(time.time() - t0, 1), "note": "", "cmd": " ".join(cmd)}
+
+
+def kani_counterexample(harness):
+    """re-run one failing harness with concrete playback to obtain the concrete values"""
+    kd = os.path.join(VERIF, "kani")
+    env = dict(os.environ, CARGO_NET_OFFLINE="true", CARGO_TARGET_DIR=os.path.join(WORK, "kani-target"))
+    short = harness.split("::")[-1]
+    try:
+        p = subprocess.run(["cargo", "kani", "--harness", short, "-Z", "concrete-playback", "--concrete-playback=print", "--output-format=terse"],
+                           cwd=kd, env=env, capture_output=True, text=True, timeout=1800)
+    except subprocess.TimeoutExpired:
+        return "concrete playback timed out"
+    out = p.stdout
+    i = out.find("Concrete playback")
+    return out[i:i + 3000] if i >= 0 else out[-2000:]
 
 
 def run_battery(prop, tier):
